@@ -508,10 +508,11 @@ func Analyze(d Def) Analysis {
 			}
 			gn := GoCamelCase(m.Name)
 			switch c := NameClass("method", m.Name); {
+			case goMeths[gn]:
+				// the collision with the other method is the root cause whatever else the spelling looks like
+				add(Feature{Key: "method-name=dup-go-name", Hostile: true, aspect: "methname", svc: si, meth: mi, msg: -1})
 			case c != "":
 				add(Feature{Key: "method-name=" + c, Hostile: true, aspect: "methname", svc: si, meth: mi, msg: -1})
-			case goMeths[gn]:
-				add(Feature{Key: "method-name=dup-go-name", Hostile: true, aspect: "methname", svc: si, meth: mi, msg: -1})
 			}
 			goMeths[gn] = true
 		}
